@@ -46,7 +46,7 @@ BASE_MIX = {
     'set_property': 6, 'unset_property': 2, 'rename': 2, 'update_labels': 1, 'update_capacities': 1,
     'set_properties': 1, 'prop_setter': 1,
     'validate': 3, 'roundtrip': 2, 'get_sliver': 3, 'checkpoint': 1, 'diff_slivers': 2,
-    'collect_authz': 2, 'collect_log': 1, 'views_readonly': 1, 'prune': 1,
+    'collect_authz': 2, 'collect_log': 1, 'views_readonly': 1, 'prune': 1, 'label_service_port': 1,
     # substrate flavour
     'node_add_network_service': 0, 'svc_add_interface': 0, 'add_link': 0, 'remove_link': 0,
     'svc_remove_interface': 0, 'node_remove_network_service': 0,
@@ -58,6 +58,7 @@ SUBSTRATE_MIX = {
     'remove_node': 3, 'remove_component': 3, 'remove_facility': 1, 'remove_switch': 1,
     'set_property': 5, 'unset_property': 2, 'rename': 1, 'get_sliver': 2, 'roundtrip': 2, 'views_readonly': 1,
     'validate': 1, 'add_child_interface': 4, 'remove_child_interface': 2, 'set_properties': 1,
+    'checkpoint': 1, 'diff_slivers': 1,
 }
 PROP_BOOST = {
     'C07': {'add_child_interface': 8, 'remove_node': 5, 'remove_component': 5, 'failing': 6, 'connect_interface': 9},
@@ -69,10 +70,11 @@ PROP_BOOST = {
     'C02': {'set_property': 20, 'unset_property': 8, 'get_sliver': 10, 'set_properties': 4, 'prop_setter': 4,
             'update_labels': 3, 'update_capacities': 3},
     'C10': {'validate': 14, 'add_network_service': 14, 'connect_interface': 8, 'set_property': 8},
-    'C11': {'collect_authz': 10, 'collect_log': 5, 'add_port_mirror_service': 8, 'add_facility': 5,
-            'add_network_service': 12, 'roundtrip': 3},
-    'C17': {'checkpoint': 5, 'diff_slivers': 12, 'set_property': 10, 'add_component': 12, 'remove_component': 6,
-            'add_child_interface': 6},
+    'C11': {'collect_authz': 10, 'collect_log': 5, 'add_port_mirror_service': 10, 'add_facility': 5,
+            'add_network_service': 12, 'roundtrip': 3, 'label_service_port': 6, 'validate': 4, 'add_component': 14},
+    'C17': {'checkpoint': 3, 'diff_slivers': 22, 'set_property': 10, 'add_component': 12, 'remove_component': 6,
+            'add_child_interface': 6, 'node_add_network_service': 8, 'node_remove_network_service': 4,
+            'svc_add_interface': 6, 'remove_child_interface': 3},
     'C01': {'roundtrip': 12},
 }
 
@@ -86,7 +88,7 @@ class W2World(World):
 
     @classmethod
     def draw_config(cls, rng, prop, tier):
-        substrate = rng.random() < (0.2 if prop in ('C07', 'C08', 'C09', 'C02', 'C01') else 0.0)
+        substrate = rng.random() < (0.35 if prop == 'C17' else 0.2 if prop in ('C07', 'C08', 'C09', 'C02', 'C01') else 0.0)
         mix = dict(SUBSTRATE_MIX if substrate else BASE_MIX)
         for k, w in PROP_BOOST.get(prop, {}).items():
             if k == 'failing' or (substrate and k in SUBSTRATE_MIX) or (not substrate and BASE_MIX.get(k, 0) > 0):
@@ -197,6 +199,10 @@ class W2World(World):
         if self.queue:
             return self.queue.pop(0)
         st = Struct(self.state())
+        if self.prop == 'C17' and not self.checkpoints and self.steps_done >= 4 and st.of_class('NetworkNode'):
+            s = w2_ops.generate(self, rng, 'checkpoint', st)
+            if s is not None:
+                return s
         for _ in range(8):
             op = wchoice(rng, self.cfg['mix'])
             s = w2_ops.generate(self, rng, op, st)
@@ -248,7 +254,7 @@ class W2World(World):
             w2_rules.check_views(self, post_struct, op)
             self.since_views = 0
         # ---- the bystander graph in the same store never changes
-        if self.bystander is not None:
+        if True:
             now = other_graphs_state(self.imp, self.gid())
             if now != self.by_pre and op not in ('checkpoint', 'roundtrip', 'collect_authz', 'collect_log'):
                 self.flag('C04', 'frame_other_graphs', {'op': op, 'world': 'W2'},
